@@ -125,9 +125,9 @@ func (s *c20Sub) Close() { s.client.Close() }
 
 // waitMarker blocks until marker n has arrived (FIFO: everything queued before
 // it has arrived too) and returns the events received before it since the
-// previous marker.  ok=false if the 60 s watchdog expired (a hang).
+// previous marker.  ok=false if the 20 s watchdog expired (a hang).
 func (s *c20Sub) waitMarker(n int, from int) (evs []eventmon.EventV0, next int, ok bool) {
-	deadline := time.Now().Add(60 * time.Second)
+	deadline := time.Now().Add(20 * time.Second)
 	timer := time.AfterFunc(60*time.Second, func() { s.mu.Lock(); s.cond.Broadcast(); s.mu.Unlock() })
 	defer timer.Stop()
 	s.mu.Lock()
@@ -201,7 +201,7 @@ func (x *c20Ctx) do(req *http.Request) (*vfResp, bool) {
 	select {
 	case r := <-ch:
 		return r, false
-	case <-time.After(60 * time.Second):
+	case <-time.After(20 * time.Second):
 		return nil, true
 	}
 }
@@ -214,7 +214,7 @@ func c20Ops() []c20Op {
 			var resp *vfResp
 			select {
 			case resp = <-ch:
-			case <-time.After(60 * time.Second):
+			case <-time.After(20 * time.Second):
 				return nil, 0, true
 			}
 			if ev, ok := c20CertEvent(resp.Body); ok && resp.Code == 200 {
@@ -319,12 +319,18 @@ func c20RunHistory(p c20Point) (violated bool, key, what, class string) {
 		vclock.Advance(3 * time.Second)
 		expected, status, hung := op.Run(x)
 		if hung {
-			return true, fmt.Sprintf("C20|handler-blocked|%s|sub2=%s", name, p.Sub2), fmt.Sprintf("op %d (%s) did not return within 60 s", i, name), ""
+			return true, fmt.Sprintf("C20|handler-blocked|%s|sub2=%s", name, p.Sub2), fmt.Sprintf("op %d (%s) did not return within 20 s", i, name), ""
 		}
 		outcome += fmt.Sprintf("%s:%d/%d ", name, status, len(expected))
 		// the marker is published after the handler returned: anything the
 		// statement requires "no later than the response" precedes it
-		eventNotifier.PublishAuthEvent("vf-marker", fmt.Sprint(i))
+		published := make(chan struct{})
+		go func() { eventNotifier.PublishAuthEvent("vf-marker", fmt.Sprint(i)); close(published) }()
+		select {
+		case <-published:
+		case <-time.After(20 * time.Second):
+			return true, fmt.Sprintf("C20|handler-blocked|login-event-publisher|sub2=%s", p.Sub2), fmt.Sprintf("publishing a login-type event after op %d (%s) did not return within 20 s: a subscriber that does not read blocks the notifier", i, name), ""
+		}
 		if prompt != nil {
 			got, next, ok := prompt.waitMarker(i, from)
 			if !ok {
@@ -424,8 +430,8 @@ func init() {
 		ID:       "C20",
 		Property: "C20",
 		Level:    "model_checking",
-		Rule:     "all histories up to the depth bound over 12 operations (seven issuing paths incl. Ed25519 CA, API login, web login, VIP OTP, service-provider login, a refused request) x second-subscriber behaviour (none, prompt, stalled, stalls after 1/16/17 events, disconnects) with a prompt subscriber attached through the real EventNotifier.ServeHTTP; after every handler return a marker event is published, and everything the statement requires must precede it in the prompt subscriber's FIFO stream with byte-identical certificate data; plus 0-subscriber runs and a 40-issuance run against a stalled subscriber",
-		Assumptions: []string{"a 60 s watchdog decides 'handler blocked' / 'subscriber starved' (real deadlock only; nothing else is timed)", "events lost by a stalled subscriber are not a violation"},
+		Rule:     "all histories up to the depth bound over 12 operations (seven issuing paths incl. Ed25519 CA, API login, web login, VIP OTP, service-provider login, a refused request) x second-subscriber behaviour (none, prompt, stalled, stalls after 1/16/17 events, disconnects) with a prompt subscriber attached through the real EventNotifier.ServeHTTP; after every handler return a marker event is published, and everything the statement requires must precede it in the prompt subscriber's FIFO stream with byte-identical certificate data; plus 0-subscriber runs, a 40-issuance run and a run of 20 issuances followed by every login-type operation against a stalled subscriber",
+		Assumptions: []string{"a 20 s watchdog decides 'handler blocked' / 'subscriber starved' (real deadlock only; nothing else is timed)", "events lost by a stalled subscriber are not a violation"},
 		Bounds: func(tier string) map[string]interface{} {
 			d := 2
 			if tier == "thorough" {
@@ -456,12 +462,19 @@ func init() {
 			}
 			gen(nil, depth)
 			i := 0
+			poisoned := false
 			run := func(p c20Point) {
 				i++
-				if !c.Mine(i) {
+				if !c.Mine(i) || poisoned {
 					return
 				}
 				v, key, what, class := c20RunHistory(p)
+				if v && (strings.Contains(key, "handler-blocked") || strings.Contains(key, "starved")) {
+					// a blocked handler keeps the process-wide notifier locked: nothing
+					// explored after it in this process would mean anything
+					poisoned = true
+					c.Inexhaustive("a handler blocked for good; this shard stopped after reporting it")
+				}
 				c.Eval(1)
 				c.Res.Transitions += int64(len(p.Ops))
 				c.Res.States++
@@ -483,13 +496,22 @@ func init() {
 			for _, o := range ops {
 				run(c20Point{Ops: []string{o.Name, o.Name}, Sub2: "none", NoSub: true})
 			}
-			// long runs: 40 issuances against stalled / late-stalling subscribers
+			// long runs: 40 issuances against stalled / late-stalling subscribers, and
+			// the same with login-type events after the stalled queue has filled
 			for _, m := range []string{"stalled", "stall-after-1", "stall-after-16", "stall-after-17"} {
 				var long []string
 				for k := 0; k < 40; k++ {
 					long = append(long, ops[k%7].Name)
 				}
 				run(c20Point{Ops: long, Sub2: m})
+				var mixed []string
+				for k := 0; k < 20; k++ {
+					mixed = append(mixed, ops[k%7].Name)
+				}
+				for _, o := range ops[7:] {
+					mixed = append(mixed, o.Name, ops[0].Name)
+				}
+				run(c20Point{Ops: mixed, Sub2: m})
 			}
 		},
 		Replay: func(c *vfeng.Ctx, raw json.RawMessage) (bool, string) {
